@@ -267,4 +267,38 @@ impl From<BroadcastStreamRecvError> for SubscriptionError {
 #[allow(unused_imports, missing_docs, dead_code, unreachable_pub)]
 pub mod verif {
     use super::*;
+
+    pub const HEADER_BROADCAST_CHANNEL_CAPACITY: usize = super::HEADER_BROADCAST_CHANNEL_CAPACITY;
+
+    /// Thin public wrapper around the crate-private [`BroadcastingStore`].
+    pub struct VerifBroadcastingStore<S: Store>(BroadcastingStore<S>);
+
+    impl<S: Store> VerifBroadcastingStore<S> {
+        pub fn new(store: Arc<S>) -> Self {
+            VerifBroadcastingStore(BroadcastingStore::new(store))
+        }
+        pub fn inner_store(&self) -> Arc<S> {
+            self.0.clone_inner_store()
+        }
+        pub fn init_broadcast(&mut self, head: ExtendedHeader) {
+            self.0.init_broadcast(head)
+        }
+        pub fn subscribe(&self) -> broadcast::Receiver<ExtendedHeader> {
+            self.0.subscribe()
+        }
+        pub async fn announce_insert(&mut self, range: Vec<ExtendedHeader>) -> Result<(), StoreError> {
+            self.0.announce_insert(range).await
+        }
+        pub fn last_sent_height(&self) -> Option<u64> {
+            self.0.last_sent_height
+        }
+        /// heights of the pending ranges, in the order they are held
+        pub fn pending_heights(&self) -> Vec<Vec<u64>> {
+            self.0
+                .pending
+                .iter()
+                .map(|r| r.iter().map(|h| h.height()).collect())
+                .collect()
+        }
+    }
 }
